@@ -47,6 +47,11 @@ def badDStar (env : Env) (f : Fn) (kw : List (NameId × Val)) : Bool :=
 def anyNonConforming (env : Env) (f : Fn) (args : List Val) (kw : List (NameId × Val)) : Bool :=
   f.plain.any (badParam env kw) || badStar env f args || badDStar env f kw
 
+/-- C03 for callables that Python itself calls positionally (property setters: `obj.x = v`): some value bound positionally
+    to a declared parameter (after the implicit self / cls) does not conform -/
+def positionalBad (env : Env) (f : Fn) (t : Truth) (args : List Val) : Bool :=
+  ((args.drop t.implicit).zip f.plain).any (fun vp => match vp.2.ann with | some a => !conforms env a vp.1 | none => false)
+
 /-- C03: the produced value does not conform to the return annotation -/
 def badProduced (env : Env) (f : Fn) (body : BodyOut) : Bool :=
   match body, f.retAnn with
